@@ -638,6 +638,16 @@ def zoo(tier='quick'):
     p.params += [('PR.PTF', 'TaxRate')]
     p.features.add('two-tax-flows')
     Z.append(p)
+    # ... and the same with a household that states its own (sector-level) tax rate, and capitalists taxed at the flows' rates
+    p = Plan('samezone_two_taxes_own_taxrate')
+    economy(p, 'AA', 'XXD', caps=True, firm='fm1', free_xr=False)
+    country(p, 'PR', 'XXD')
+    p.decl('PR.PGOV', lambda c: sd.ConsolidatedGovernment(c['PR'], c.nm('PGOV')), group='PR')
+    p.decl('PR.PTF', lambda c: sd.TaxFlow(c['PR'], c.nm('PTF'), taxrate=0.1, taxes_paid_to=c.nm('PGOV')), group='PR', kind='flow')
+    p.params += [('PR.PTF', 'TaxRate')]
+    p.post(lambda c: c['AA.CAP'].AddVariable('TaxRate', 'sector-level tax rate', '0.25'))
+    p.features.add('two-tax-flows')
+    Z.append(p)
     # a rule-based supplier whose rule is stated a second time (AddSupplier called again for the same supplier, to revise the rule)
     p = Plan('samezone_supplier_rule_restated')
     economy(p, 'AA', 'XXD', firm='multi', free_xr=False)
